@@ -43,6 +43,25 @@ Proof.
          repeat match goal with |- context [if ?c then _ else _] => destruct c end; simpl; exact I).
 Qed.
 
+Lemma nat_str1_ok o t t' v : ty_str1 o t = Some t' -> has_ty v t ->
+  match nat_str1 o v with NOV v' => has_ty v' t' | NOF _ => True | NOStuck => False end.
+Proof.
+  destruct o, t; simpl; try discriminate; intros E; injection E as <-; destruct v; simpl; try contradiction; intros _; exact I.
+Qed.
+Lemma nat_str2_ok o ta tb t va vb : ty_str2 o ta tb = Some t -> has_ty va ta -> has_ty vb tb ->
+  match nat_str2 o va vb with NOV v => has_ty v t | NOF _ => True | NOStuck => False end.
+Proof.
+  destruct o, ta, tb; simpl; try discriminate; intros E; injection E as <-;
+    destruct va, vb; simpl; try contradiction; intros _ _; try exact I;
+    try (destruct (concat_v s s0); exact I).
+  destruct (char_at_v s z); exact I.
+Qed.
+Lemma nat_substr_ok va vb vc : has_ty va TStr -> has_ty vb TInt -> has_ty vc TInt ->
+  match nat_substr va vb vc with NOV v => has_ty v TStr | NOF _ => True | NOStuck => False end.
+Proof.
+  destruct va, vb, vc; simpl; try contradiction. intros _ _ _. destruct (substr_v s z z0); exact I.
+Qed.
+
 (* ------------------------------------------------------------------ environments: NatSem's are Ref's *)
 Lemma nlookup_ok x (en : nenv) L : env_ok en L ->
   match tlookup x L with
@@ -300,6 +319,33 @@ Proof.
     destruct ta; try discriminate. injection Ht as <-.
     eapply ngood_bind; [apply (IHe _ _ _ _ out He Ea)|]. intros va o1 _ Hva.
     destruct (arr_inv _ Hva) as [l ->]. exact I.
+  - (* unary string builtin *)
+    simpl in Ht. destruct (ty_expr F G L e) as [ta|] eqn:Ea; [|discriminate].
+    eapply ngood_bind; [apply (IHe _ _ _ _ out He Ea)|]. intros v o1 _ Hv.
+    pose proof (nat_str1_ok _ _ _ _ Ht Hv) as Hb. destruct (nat_str1 o v); simpl; auto.
+  - (* binary string builtin: either order of the two operands *)
+    simpl in Ht. destruct (ty_expr F G L e1) as [ta|] eqn:Ea; [|discriminate].
+    destruct (ty_expr F G L e2) as [tb|] eqn:Eb; [|discriminate].
+    apply ngood_order.
+    + eapply ngood_bind; [apply (IHe _ _ _ _ out He Ea)|]. intros va o1 _ Hva.
+      eapply ngood_bind; [apply (IHe _ _ _ _ o1 He Eb)|]. intros vb o2 _ Hvb.
+      pose proof (nat_str2_ok _ _ _ _ _ _ Ht Hva Hvb) as Hb. destruct (nat_str2 o va vb); simpl; auto.
+    + eapply ngood_bind; [apply (IHe _ _ _ _ out He Eb)|]. intros vb o1 _ Hvb.
+      eapply ngood_bind; [apply (IHe _ _ _ _ o1 He Ea)|]. intros va o2 _ Hva.
+      pose proof (nat_str2_ok _ _ _ _ _ _ Ht Hva Hvb) as Hb. destruct (nat_str2 o va vb); simpl; auto.
+  - (* str_substring: either order of the three operands *)
+    simpl in Ht. destruct (ty_expr F G L e1) as [ta|] eqn:Ea; [|discriminate]. destruct ta; try discriminate.
+    destruct (ty_expr F G L e2) as [tb|] eqn:Eb; [|discriminate]. destruct tb; try discriminate.
+    destruct (ty_expr F G L e3) as [tc|] eqn:Ec; [|discriminate]. destruct tc; try discriminate. injection Ht as <-.
+    apply ngood_order.
+    + eapply ngood_bind; [apply (IHe _ _ _ _ out He Ea)|]. intros va o1 _ Hva.
+      eapply ngood_bind; [apply (IHe _ _ _ _ o1 He Eb)|]. intros vb o2 _ Hvb.
+      eapply ngood_bind; [apply (IHe _ _ _ _ o2 He Ec)|]. intros vc o3 _ Hvc.
+      pose proof (nat_substr_ok _ _ _ Hva Hvb Hvc) as Hb. destruct (nat_substr va vb vc); simpl; auto.
+    + eapply ngood_bind; [apply (IHe _ _ _ _ out He Ec)|]. intros vc o1 _ Hvc.
+      eapply ngood_bind; [apply (IHe _ _ _ _ o1 He Eb)|]. intros vb o2 _ Hvb.
+      eapply ngood_bind; [apply (IHe _ _ _ _ o2 He Ea)|]. intros va o3 _ Hva.
+      pose proof (nat_substr_ok _ _ _ Hva Hvb Hvc) as Hb. destruct (nat_substr va vb vc); simpl; auto.
 Qed.
 
 (* re-base the suffix part of a statement's post-condition on an outer scope *)
